@@ -72,12 +72,108 @@ class SymRange:
 
     def __init__(self, *a):
         self.args = a
+        if len(a) == 1:
+            self.start, self.stop, self.step = 0, a[0], 1
+        elif len(a) == 2:
+            self.start, self.stop, self.step = a[0], a[1], 1
+        else:
+            self.start, self.stop, self.step = a
+        cs = sym.concrete(self.step) if not isinstance(self.step, builtins.int) else self.step
+        if cs is None or cs <= 0:
+            raise sym.Unsupported("range with symbolic / non-positive step")
+        self.step = cs
 
     def __iter__(self):
         raise sym.Unsupported(f"loop over symbolic range{self.args} without a loop invariant")
 
+    def length(self):
+        import z3
+        d = sym.as_z3_int(self.stop) - sym.as_z3_int(self.start)
+        return sym.lift(z3.If(d <= 0, 0, (d + (self.step - 1)) / self.step))
+
     def __len__(self):
-        raise sym.Unsupported("len(range(symbolic))")
+        raise sym.Unsupported("len(range(symbolic)) through the builtin")
+
+    def __getitem__(self, i):
+        n = self.length()
+        if isinstance(i, (builtins.slice, SymSlice)):
+            raise sym.Unsupported("slicing a symbolic range")
+        if builtins.bool((i < -n) | (i >= n)) if not isinstance((i < -n) | (i >= n), builtins.bool) else ((i < -n) | (i >= n)):
+            raise IndexError("range object index out of range")
+        import z3
+        iz = sym.as_z3_int(i)
+        return sym.lift(sym.as_z3_int(self.start) + z3.If(iz < 0, iz + sym.as_z3_int(n), iz) * self.step)
+
+
+class SymSlice:
+    """slice object whose fields / whose dimension size may be symbolic (python slice semantics)"""
+
+    def __init__(self, start=None, stop=None, step=None):
+        self.start, self.stop, self.step = start, stop, step
+
+    def indices(self, n):
+        import z3
+        step = 1 if self.step is None else self.step
+        cs = sym.concrete(step) if not isinstance(step, builtins.int) else step
+        if cs is None:
+            raise sym.Unsupported("symbolic slice step")
+        if cs == 0:
+            raise ValueError("slice step cannot be zero")
+        if cs < 0:
+            raise sym.Unsupported("negative slice step")
+        nz = sym.as_z3_int(n)
+
+        def clamp(v, default):
+            if v is None:
+                return default
+            vz = sym.as_z3_int(v)
+            w = z3.If(vz < 0, vz + nz, vz)
+            return sym.lift(z3.If(w < 0, 0, z3.If(w > nz, nz, w)))
+
+        return clamp(self.start, 0), clamp(self.stop, n), cs
+
+    def _same(self, a, b):
+        if a is None or b is None:
+            return a is None and b is None
+        return a == b
+
+    def __eq__(self, o):
+        if not isinstance(o, (builtins.slice, SymSlice)):
+            return False
+        r = True
+        for a, b in ((self.start, o.start), (self.stop, o.stop), (self.step, o.step)):
+            e = self._same(a, b)
+            if e is False:
+                return False
+            if e is True:
+                continue
+            r = e if r is True else (r & e)
+        return r
+
+    def __ne__(self, o):
+        e = self.__eq__(o)
+        return (not e) if isinstance(e, builtins.bool) else ~e
+
+    __hash__ = None
+
+    def __repr__(self):
+        return f"SymSlice({self.start}, {self.stop}, {self.step})"
+
+
+class _SliceMeta(type):
+    def __instancecheck__(cls, obj):
+        return isinstance(obj, (builtins.slice, SymSlice))
+
+
+class ShimSlice(metaclass=_SliceMeta):
+    def __new__(cls, *a):
+        if len(a) == 1:
+            a = (None, a[0], None)
+        elif len(a) == 2:
+            a = (a[0], a[1], None)
+        if builtins.any(isinstance(x, (SymInt,)) for x in a):
+            return SymSlice(*a)
+        return builtins.slice(*a)
 
 
 def shim_range(*a):
@@ -90,6 +186,8 @@ def shim_range(*a):
 
 
 def shim_len(x):
+    if isinstance(x, SymRange):
+        return x.length()
     if isinstance(x, symtensor.SymTensor):
         if not x.shape:
             raise TypeError("len() of a 0-d tensor")
@@ -117,7 +215,7 @@ def shim_abs(x):
     return abs(x)
 
 
-SHIMS = {"int": ShimInt, "float": ShimFloat, "bool": ShimBool, "range": shim_range, "len": shim_len, "min": shim_min, "max": shim_max}
+SHIMS = {"slice": ShimSlice, "int": ShimInt, "float": ShimFloat, "bool": ShimBool, "range": shim_range, "len": shim_len, "min": shim_min, "max": shim_max}
 
 
 def install(repo: str = None):
